@@ -58,7 +58,8 @@ def new_math(trig_mode='tanhalf', base=1, K=None):
     """fresh per-path state of the math shim (angle registry, caches)"""
     st = setup()
     ms = st['ms']
-    for k in ('_mc', '_dp', '_pm', '_ti'):
+    ms.opaque = False
+    for k in ('_mc', '_dp', '_pm', '_ti', '_op'):
         ms.__dict__.pop(k, None)
     ms.angles = shims.Angle()
     ms.trig_mode, ms.trig_base, ms.trig_K = trig_mode, base, K
